@@ -207,13 +207,21 @@ class _FakeCond(object):
         return False
 
     def wait(self, timeout=None):
+        # threading.Condition.wait: True if woken by notify(), False if the
+        # timeout elapsed
         self.waits += 1
         if self.waits >= self.max_waits:
             self.sched._stopped = True
+        self.notified = False
         self.acts.hand_off('wait')
+        woken = getattr(self, 'notified', False)
+        self.notified = False
+        if timeout is None:
+            return True
+        return woken
 
     def notify(self, n=1):
-        pass
+        self.notified = True
 
     notify_all = notify
 
@@ -251,7 +259,7 @@ def _mk_sched(ds, acts, max_waits):
 
 
 def _c13_3_case(n_pollers, polls, run_afters, crash_budget, max_waits,
-                timeout_cfg=30, pickup_cfg=60, commits=None):
+                timeout_cfg=30, pickup_cfg=60, commits=None, two_jobs=False):
     from vt import actors as A
     from mistral.db.v2.sqlalchemy import api as sa_api, models
     from mistral.db.v2 import api as db_api
@@ -303,6 +311,18 @@ def _c13_3_case(n_pollers, polls, run_afters, crash_budget, max_waits,
                         s0.schedule(job)
                         row = s0._heap[0][2]
                         info['execute_at'] = row.execute_at
+                        if two_jobs:
+                            # a second, far-away job scheduled while the
+                            # first one is pending (wakes the dispatcher)
+                            acts.hand_off('between-jobs')
+                            s0.schedule(sched_base.SchedulerJob(
+                                run_after=3600,
+                                func_name='vt.harness.C13.target',
+                                func_args={'tag': 'FAR'}, key='K2'))
+                            far = [e[2] for e in s0._heap
+                                   if e[2].key == 'K2']
+                            if far:
+                                info['far_execute_at'] = far[0].execute_at
                         if not commit:
                             raise _Rollback()
                 except _Rollback:
@@ -335,6 +355,15 @@ def _c13_3_case(n_pollers, polls, run_afters, crash_budget, max_waits,
                 check(False, 'step-bound-too-small',
                       {'signature': 'C13.3:bound'})
             ex_at = info.get('execute_at')
+            if two_jobs:
+                reach('two-jobs')
+                for tag, at in INVOKED:
+                    when = ex_at if tag == 'J' else info.get(
+                        'far_execute_at')
+                    if when is not None:
+                        check(at >= when, 'invoked-early',
+                              {'signature': 'C13.3:early'})
+                return
             rows = db.all_rows(models.ScheduledJob)
             n_inv = len(INVOKED)
             tmo = datetime.timedelta(seconds=timeout_cfg)
@@ -445,6 +474,9 @@ def c13_3(ctx):
         yield Case('commit/E+D0+P1', _c13_3_case(1, 1, 'sym', 0, 2,
                                                  commits=True),
                    needed=needed, shard_depth=12, procs=12)
+        yield Case('two-jobs/E+D0', _c13_3_case(0, 0, 'sym', 0, 3,
+                                                commits=True, two_jobs=True),
+                   needed=['two-jobs'])
     else:
         yield Case('rollback/E+D0+P1+P2', _c13_3_case(2, 1, 'sym', 0, 3,
                                                       commits=False),
@@ -453,6 +485,10 @@ def c13_3(ctx):
                                                    commits=True),
                    needed=needed, shard_depth=14, procs=14,
                    max_paths=2000000)
+        yield Case('two-jobs/E+D0+P1', _c13_3_case(1, 1, 'sym', 0, 4,
+                                                   commits=True,
+                                                   two_jobs=True),
+                   needed=['two-jobs'], shard_depth=12, procs=14)
         yield Case('commit/E+D0+P1/crash1', _c13_3_case(1, 1, 'sym', 1, 2,
                                                         commits=True),
                    needed=needed + ['crashed'], shard_depth=14, procs=14,
